@@ -82,6 +82,21 @@ CHILDREN = {
     "format not a map": ("- decl: void f()\n  format: [a]\n", False),
     "attrs not a map": ("- decl: void f(int a)\n  attrs: 3\n", False),
     "declarations scalar": ("- decl: class K\n  declarations: 5\n", False),
+    "empty splicer text": ("- decl: void f()\n  splicer:\n    c: \"\"\n", None),
+    "empty fstatements text": ("- decl: void f()\n  fstatements:\n    c:\n      pre_call: \"\"\n", None),
+    "splicer null": ("- decl: void f()\n  splicer:\n    c:\n", None),
+    "fstatements scalar": ("- decl: void f()\n  fstatements:\n    c: 3\n", False),
+    "doxygen scalar": ("- decl: void f()\n  doxygen: text\n", False),
+    "cxx_template scalar": ("- decl: template<typename T> void f(T a)\n  cxx_template: 3\n", False),
+    "fortran_generic scalar": ("- decl: void f(double a)\n  fortran_generic: 3\n", False),
+    "fortran_generic entries": ("- decl: void f(double a)\n  fortran_generic:\n  - 3\n", False),
+    "return_this text": ("- decl: void f()\n  return_this: maybe\n", None),
+    "cpp_if number": ("- decl: void f()\n  cpp_if: 3\n", None),
+    "options unknown": ("- decl: void f()\n  options:\n    no_such_option: 1\n", None),
+    "format number": ("- decl: void f()\n  format:\n    F_name_impl: 3\n", None),
+    "attrs unknown arg": ("- decl: void f(int a)\n  attrs:\n    nosuch:\n      intent: in\n", None),
+    "attrs value list": ("- decl: void f(int a)\n  attrs:\n    a:\n      intent: [in]\n", False),
+    "fattrs scalar": ("- decl: int f()\n  fattrs: 3\n", False),
 }
 
 
